@@ -1728,7 +1728,7 @@ fn replay(r: &Value) -> ! {
     } else if r["part"] == "protocol" {
         let depth = r["depth"].as_u64().unwrap_or(0) as usize;
         let (ha, hb) = (r["ha"].as_str().unwrap_or(""), r["hb"].as_str().unwrap_or(""));
-        for v in protocol_case(depth, ha, hb, r["pre"].as_u64().unwrap_or(0) as usize, r["agreed"].as_u64().unwrap_or(0) as usize, r["full"].as_bool().unwrap_or(false)).0 {
+        for v in protocol_case(depth, ha, hb, r["pre"].as_u64().unwrap_or(0) as usize, r["agreed"].as_u64().unwrap_or(0) as usize, r["full"].as_bool().unwrap_or(false), r["met_before"].as_bool().unwrap_or(false)).0 {
             found.entry(v.sig).or_insert(v.detail);
         }
     } else if r["part"] == "hash-sync" {
@@ -1935,7 +1935,7 @@ fn late_key_case(shared: usize, limit: usize, late: bool, writer: usize) -> Opti
 /// (`process_peer_digest`), asks for the divergent buckets (`create_sync_request`; `full`: for everything), node 0 answers
 /// (`handle_sync_request`), node 1 applies the answer; then the same with the roles swapped. The limit cannot truncate.
 /// Afterwards both hold a merge of the prior values, the digests agree, and a further digest exchange reports "in sync".
-fn protocol_case(depth: usize, ha: &str, hb: &str, pre: usize, agreed: usize, full: bool) -> (Vec<Viol>, bool) {
+fn protocol_case(depth: usize, ha: &str, hb: &str, pre: usize, agreed: usize, full: bool, met_before: bool) -> (Vec<Viol>, bool) {
     let mut sim = MultiNodeSimulation::new(2, 0);
     for n in 0..2 {
         sim.nodes[n].anti_entropy.config.max_keys_per_sync = 1000;
@@ -1946,6 +1946,12 @@ fn protocol_case(depth: usize, ha: &str, hb: &str, pre: usize, agreed: usize, fu
     }
     let d = sim.nodes[0].drain_deltas();
     sim.nodes[1].apply_remote_deltas(d);
+    if met_before {
+        // the two have compared digests before, while they agreed: each has the other on record as "in sync"
+        let (d0, d1) = (sim.nodes[0].generate_digest(), sim.nodes[1].generate_digest());
+        let _ = sim.nodes[0].anti_entropy.process_peer_digest(d1.clone(), &d0);
+        let _ = sim.nodes[1].anti_entropy.process_peer_digest(d0, &d1);
+    }
     apply_hop(&mut sim, 0, ha);
     apply_hop(&mut sim, 1, hb);
     let (d0, d1) = (sim.nodes[0].drain_deltas(), sim.nodes[1].drain_deltas());
@@ -1957,13 +1963,14 @@ fn protocol_case(depth: usize, ha: &str, hb: &str, pre: usize, agreed: usize, fu
     let prior0 = sim.nodes[0].replica_state.replicated_keys.get("h").cloned();
     let prior1 = sim.nodes[1].replica_state.replicated_keys.get("h").cloned();
     let scenario = format!(
-        "message protocol, depth {depth}, {agreed} agreed keys, {}: node0 [{ha}] node1 [{hb}] on key h; before the exchange {}; prior node0 = {} prior node1 = {}",
+        "message protocol{}, depth {depth}, {agreed} agreed keys, {}: node0 [{ha}] node1 [{hb}] on key h; before the exchange {}; prior node0 = {} prior node1 = {}",
+        if met_before { " (the nodes had exchanged digests while they still agreed)" } else { "" },
         if full { "full-state request" } else { "request for the divergent buckets" },
         ["nothing was delivered", "node1's deltas reached node0, node0's were lost", "node0's deltas reached node1, node1's were lost"][pre],
         prior0.as_ref().map(canon_value).unwrap_or_else(|| "-".into()),
         prior1.as_ref().map(canon_value).unwrap_or_else(|| "-".into())
     );
-    let replay = json!({"part": "protocol", "depth": depth, "ha": ha, "hb": hb, "pre": pre, "agreed": agreed, "full": full});
+    let replay = json!({"part": "protocol", "depth": depth, "ha": ha, "hb": hb, "pre": pre, "agreed": agreed, "full": full, "met_before": met_before});
     let mut out = Vec::new();
     let equal_prior = prior0.as_ref().map(canon_value) == prior1.as_ref().map(canon_value);
     // one direction: `asker` learns `holder`'s digest and pulls
@@ -2290,11 +2297,11 @@ fn main() {
         }
     }
     // ---- (f) the same situations through the request / response messages of AntiEntropyManager
-    let proto_items: Vec<(usize, usize, usize, usize, usize, bool)> = hash_items
+    let proto_items: Vec<(usize, usize, usize, usize, usize, bool, bool)> = hash_items
         .iter()
-        .flat_map(|(d, a, b, p)| [(0usize, false), (3, false), (3, true)].into_iter().map(move |(ag, full)| (*d, *a, *b, *p, ag, full)))
+        .flat_map(|(d, a, b, p)| [(0usize, false, false), (3, false, false), (3, true, false), (0, false, true), (3, false, true), (3, true, true)].into_iter().map(move |(ag, full, met)| (*d, *a, *b, *p, ag, full, met)))
         .collect();
-    let pres = par::par_map(&proto_items, |_, (d, a, b, p, ag, full)| protocol_case(*d, HOPS[*a], HOPS[*b], *p, *ag, *full));
+    let pres = par::par_map(&proto_items, |_, (d, a, b, p, ag, full, met)| protocol_case(*d, HOPS[*a], HOPS[*b], *p, *ag, *full, *met));
     let protocol_evaluated = pres.iter().filter(|r| r.1).count() as u64;
     {
         let mut seen = BTreeSet::new();
@@ -2450,7 +2457,7 @@ fn main() {
     coverage["new_key_next_to_more_agreed_keys_than_the_limit"] = json!({"cases": late_key_cases,
         "rule": "both replicas agree on 2/3/5/12 keys; max_keys_per_sync is set to 1/2/3; one more key that sorts after (or before) all of them and is alone in its bucket is written on either side: one exchange must bring it over"});
     coverage["request_response_messages"] = json!({"cases": proto_items.len(), "cases_with_a_divergent_pair_exchanged": protocol_evaluated,
-        "rule": "the hash-sync situations (7 x 7 short histories of one key x one-sided delivery x depth 0/8) with 0 or 3 further keys both sides agree on, exchanged through process_peer_digest / create_sync_request (divergent buckets, or full state) / handle_sync_request / apply, then with the roles swapped: both sides hold a merge of the prior values, the agreed keys are untouched; with no other key a request is made exactly when the values differ"});
+        "rule": "the hash-sync situations (7 x 7 short histories of one key x one-sided delivery x depth 0/8) with 0 or 3 further keys both sides agree on, exchanged through process_peer_digest / create_sync_request (divergent buckets, or full state) / handle_sync_request / apply, then with the roles swapped - from managers that have never heard of each other, and from managers that compared digests earlier, while the states still agreed: both sides hold a merge of the prior values, the agreed keys are untouched; with no other key a request is made exactly when the values differ"});
     coverage["hash_sync_after_one_sided_delivery"] = json!({"cases": hash_items.len(), "cases_with_a_divergent_pair_exchanged": hash_sync_evaluated,
         "rule": "key h: each node does one of [nothing, HSET f, HSET g, HSET f + HDEL f, HSET f + HSET g, SET, SET + DEL] through its real ShardReplicaState; before the exchange nothing / only node1's deltas / only node0's deltas were delivered; merkle depth 0 and 8; then ONE run_anti_entropy_sync with a non-truncating limit: both sides must hold a merge of the two prior values"});
     rep.finish(coverage, assumptions);
